@@ -13,6 +13,7 @@ base = load(os.path.join(ROOT, "seeded", "RESULTS.baseline.jsonl"))
 for extra in ("RESULTS.baseline.round2.jsonl", "RESULTS.baseline.round2b.jsonl", "RESULTS.baseline.round3.jsonl"):
     base.update(load(os.path.join(ROOT, "seeded", extra)))
 final = load(os.path.join(ROOT, "seeded", "RESULTS.jsonl"))
+final_target = load(os.path.join(ROOT, "seeded", "RESULTS.final-target.jsonl"))
 for d in sorted(os.listdir(os.path.join(ROOT, "seeded"))):
     mp = os.path.join(ROOT, "seeded", d, "meta.json")
     if not os.path.exists(mp):
@@ -24,7 +25,8 @@ for d in sorted(os.listdir(os.path.join(ROOT, "seeded"))):
         return sorted(k for k, v in r.get("checks", {}).items() if v["verdict"] == "KILLED")
     m["detected_by"] = {
         "first_version_of_the_checks": killed(base),
-        "current_checks": killed(final),
+        "all_twenty_checks": killed(final),
+        "target_check_final_harness": killed(final_target),
         "how": "tools/mutation_farm.py: patch applied to a scratch clone of /repo, harness built against it, quick tier of all twenty checks, VERIF_SEED=0",
     }
     notes = os.path.join(ROOT, "seeded", d, "notes.md")
